@@ -45,6 +45,11 @@ def make(cls, beh, variant=""):
     else:
         img = BooleanImage(mask.copy())
     img.landmarks["lm"] = PointCloud(L.pts(beh["lms0"]))
+    # the same whole-pixel annotations stored twice, as int64 and as float64 points: the number type of a landmark group must not
+    # decide where it goes
+    W = np.array([[1, 1], [2, 3], [sh[0] - 2, 2], [0, sh[1] - 1]])
+    img.landmarks["ilm"] = PointCloud(W.astype(np.int64))
+    img.landmarks["flm"] = PointCloud(W.astype(np.float64))
     return img
 
 
@@ -140,7 +145,11 @@ def replay_one(cls, beh, variant=""):
         if op == "gpyramid" and (cls == "BooleanImage" or variant == "u8x2"):
             return None                                     # (smoothing a boolean image is not an operation of that class)
         if op == "warp_sym":
-            return _warp_sym(cls, img, args[0], tag, ctol)
+            # (the twin whole-number groups may lie outside the domain of a piecewise-affine / spline warp: not part of that case)
+            plain = img.copy()
+            del plain.landmarks["ilm"]
+            del plain.landmarks["flm"]
+            return _warp_sym(cls, plain, args[0], tag, ctol)
         keep_px, keep_lm = img.pixels.copy(), img.landmarks["lm"].points.copy()
         try:
             res, T = _call(img, op, args, exp)
@@ -198,6 +207,9 @@ def replay_one(cls, beh, variant=""):
         got_lm = res.landmarks["lm"].points
         if got_lm.shape != want_lm.shape or not L.close(got_lm, want_lm, 1e-9):
             return tag + ": landmarks not moved with the pixels (max diff %.4g)" % L.maxdiff(got_lm, want_lm)
+        gi, gf = np.asarray(res.landmarks["ilm"].points, dtype=float), np.asarray(res.landmarks["flm"].points, dtype=float)
+        if gi.shape != gf.shape or not L.close(gi, gf, 1e-9):
+            return tag + ": a landmark group stored as whole numbers (int64) is not moved like the same points stored as floats (max diff %.4g)" % L.maxdiff(gi, gf)
         valid = np.array(exp["valid"], dtype=bool)
         A = L.mat(exp["A"])
         if cls != "BooleanImage":
